@@ -158,20 +158,29 @@ type Trace struct {
 	StepAt []time.Time `json:"step_at"`
 	// RestartSilSnap: per restart step in order, the instant of the silence snapshot the new process started
 	// from (the stop instant for a clean restart, the last maintenance run for a stale one, zero for none)
-	RestartSilSnap []time.Time    `json:"restart_sil_snap,omitempty"`
-	End            time.Time      `json:"end"`
-	Attempts       []Attempt      `json:"attempts"`
-	Samples        []Sample       `json:"samples"`
-	Starts         []time.Time    `json:"starts"`      // instants at which the instance (re)started its process-lifetime components
-	DispStarts     []time.Time    `json:"disp_starts"` // instants at which a dispatcher was (re)created (reload or restart)
-	Errors         []string       `json:"errors,omitempty"`
-	FlushStorm     []string       `json:"flush_storm,omitempty"`
-	Flushes        []FlushEnter   `json:"flushes,omitempty"`
-	HookLog        []string       `json:"hook_log,omitempty"`
-	Net            map[string]int `json:"net,omitempty"`            // cluster mode: message counters of the harness network
-	PushPullGaps   []string       `json:"push_pull_gaps,omitempty"` // cluster mode: entries a full-state exchange failed to hand over
-	Arrivals       []Arrival      `json:"arrivals,omitempty"`       // cluster mode: gossip deliveries of notification-log entries
-	LogWrites      []LogWrite     `json:"log_writes,omitempty"`     // cluster mode: notification-log entries written locally by each instance
+	RestartSilSnap []time.Time     `json:"restart_sil_snap,omitempty"`
+	End            time.Time       `json:"end"`
+	Attempts       []Attempt       `json:"attempts"`
+	Samples        []Sample        `json:"samples"`
+	Starts         []time.Time     `json:"starts"`      // instants at which the instance (re)started its process-lifetime components
+	DispStarts     []time.Time     `json:"disp_starts"` // instants at which a dispatcher was (re)created (reload or restart)
+	Errors         []string        `json:"errors,omitempty"`
+	FlushStorm     []string        `json:"flush_storm,omitempty"`
+	Flushes        []FlushEnter    `json:"flushes,omitempty"`
+	PipelineEnters []PipelineEnter `json:"pipeline_enters,omitempty"`
+	HookLog        []string        `json:"hook_log,omitempty"`
+	Net            map[string]int  `json:"net,omitempty"`            // cluster mode: message counters of the harness network
+	PushPullGaps   []string        `json:"push_pull_gaps,omitempty"` // cluster mode: entries a full-state exchange failed to hand over
+	Arrivals       []Arrival       `json:"arrivals,omitempty"`       // cluster mode: gossip deliveries of notification-log entries
+	LogWrites      []LogWrite      `json:"log_writes,omitempty"`     // cluster mode: notification-log entries written locally by each instance
+}
+
+// PipelineEnter: a flush of one instance handed its alerts to the notification pipeline.
+type PipelineEnter struct {
+	Inst        int       `json:"inst"`
+	AggrGroupID string    `json:"aggr_group_id"`
+	FlushID     uint64    `json:"flush_id"`
+	At          time.Time `json:"at"`
 }
 
 // FlushEnter is recorded by the flush.enter hook point.
